@@ -431,7 +431,27 @@ class StingyRT(_RT):
                 ("rt.class", type(res) is cc.StingyConfigurator)]
 
     def concretise(self, case, k, model, c, st):
-        return None
+        return {"case": dict(case), "children": concretise_children(model, c.families["X"], k, c.env)}
+
+    def replay(self, w):
+        import json
+        import puan.modules.configurator as cc
+        kids, env = build_children(w["children"])
+        if not kids or len({k.id for k in kids}) != len(kids):
+            return {"violated": [], "detail": {"note": "witness outside the precondition"}}
+        x = cc.StingyConfigurator(*kids, id="cfg")
+        js = json.loads(json.dumps(x.to_json()))
+        y = cc.StingyConfigurator.from_json(js)
+        a = cc.StingyConfigurator(*build_children(w["children"])[0], id="cfg").evaluate(dict(env))
+        b = y.evaluate(dict(env))
+        violated = []
+        if tuple(a.as_tuple()) != tuple(b.as_tuple()):
+            violated.append("rt.truth")
+        if y.id != x.id:
+            violated.append("rt.id-kept")
+        if type(y) is not cc.StingyConfigurator:
+            violated.append("rt.class")
+        return {"violated": violated, "detail": {"model": x.to_text(), "json": js, "roundtrip": y.to_text(), "interpretation": env}}
 
 
 HARNESSES += [CcAnyRT(), CcXorRT(), StingyRT()]
